@@ -41,11 +41,12 @@ theorem writeFrame_ok (f : Frame) (h : f.data.length ≤ crossnode.MaxFrameSize)
 theorem writeLoop_spec (id : Bytes) (hid : id.length = idLen) (p : Bytes) (k written : Nat) (out : Bytes)
     (hw : written ≤ p.length) (hk : p.length - written ≤ k) :
     ∃ fs, writeLoop id p k written out = (p.length, true, out ++ encodeAll fs) ∧
-      OwnData id fs ∧ cat fs = p.drop written := by
+      OwnData id fs ∧ cat fs = p.drop written ∧
+      fs.length ≤ (p.length - written + (crossnode.MaxFrameSize - 1)) / crossnode.MaxFrameSize := by
   induction k generalizing written out with
   | zero =>
     have hwe : written = p.length := by omega
-    refine ⟨[], ?_, ?_, ?_⟩
+    refine ⟨[], ?_, ?_, ?_, by simp⟩
     · simp [writeLoop, hwe, encodeAll]
     · intro f hf; simp at hf
     · simp [cat, hwe]
@@ -63,9 +64,16 @@ theorem writeLoop_spec (id : Bytes) (hid : id.length = idLen) (p : Bytes) (k wri
       have hwf : writeFrame ⟨id, crossnode.FrameTypeData, (p.drop written).take cs⟩ =
           some (encode ⟨id, crossnode.FrameTypeData, (p.drop written).take cs⟩) :=
         writeFrame_ok _ (by simp only [hcl]; exact hcs2)
-      obtain ⟨fs, h1, h2, h3⟩ := ih (written + cs) (out ++ encode ⟨id, crossnode.FrameTypeData, (p.drop written).take cs⟩)
+      obtain ⟨fs, h1, h2, h3, h4⟩ := ih (written + cs) (out ++ encode ⟨id, crossnode.FrameTypeData, (p.drop written).take cs⟩)
         hcs3 (by omega)
-      refine ⟨⟨id, crossnode.FrameTypeData, (p.drop written).take cs⟩ :: fs, ?_, ?_, ?_⟩
+      have hcount : (⟨id, crossnode.FrameTypeData, (p.drop written).take cs⟩ :: fs).length ≤
+          (p.length - written + (crossnode.MaxFrameSize - 1)) / crossnode.MaxFrameSize := by
+        have hcs4 : cs = crossnode.MaxFrameSize ∨ written + cs = p.length := by subst hcs; split <;> omega
+        rw [List.length_cons]
+        clear hwf hcl h1 h2 h3 ih
+        simp only [crossnode.MaxFrameSize] at hcs1 hcs2 hcs3 hcs4 h4 ⊢
+        omega
+      refine ⟨⟨id, crossnode.FrameTypeData, (p.drop written).take cs⟩ :: fs, ?_, ?_, ?_, hcount⟩
       · unfold writeLoop
         simp only [hlt, if_true, hcs, hwf, h1, encodeAll_cons, List.append_assoc]
       · intro f hf
@@ -76,7 +84,7 @@ theorem writeLoop_spec (id : Bytes) (hid : id.length = idLen) (p : Bytes) (k wri
       · simp only [cat, List.map_cons, List.flatten_cons] at h3 ⊢
         rw [h3, ← List.drop_drop, List.take_append_drop]
     · have hwe : written = p.length := by omega
-      refine ⟨[], ?_, ?_, ?_⟩
+      refine ⟨[], ?_, ?_, ?_, by simp⟩
       · unfold writeLoop
         simp [hwe, encodeAll]
       · intro f hf; simp at hf
@@ -84,22 +92,25 @@ theorem writeLoop_spec (id : Bytes) (hid : id.length = idLen) (p : Bytes) (k wri
 
 theorem write_open (st : FS) (hid : st.tunnelID.length = idLen) (p : Bytes) (hopen : st.writeEOF = false) :
     ∃ fs, st.write p = (.ok p.length, { st with out := st.out ++ encodeAll fs }) ∧
-      OwnData st.tunnelID fs ∧ cat fs = p := by
+      OwnData st.tunnelID fs ∧ cat fs = p ∧ fs.length ≤ p.length / crossnode.MaxFrameSize + 1 := by
   by_cases h0 : p.length = 0
   · have hp : p = [] := List.eq_nil_of_length_eq_zero h0
-    refine ⟨[], ?_, ?_, ?_⟩
+    refine ⟨[], ?_, ?_, ?_, by simp⟩
     · subst hp
       cases st
       simp_all [FS.write, encodeAll]
     · intro f hf; simp at hf
     · simp [cat, hp]
   · by_cases hbig : p.length > crossnode.MaxFrameSize
-    · obtain ⟨fs, h1, h2, h3⟩ := writeLoop_spec st.tunnelID hid p p.length 0 st.out (Nat.zero_le _) (by omega)
-      refine ⟨fs, ?_, h2, by simpa using h3⟩
+    · obtain ⟨fs, h1, h2, h3, h4⟩ := writeLoop_spec st.tunnelID hid p p.length 0 st.out (Nat.zero_le _) (by omega)
+      have hc : fs.length ≤ p.length / crossnode.MaxFrameSize + 1 := by
+        simp only [crossnode.MaxFrameSize] at h4 ⊢
+        omega
+      refine ⟨fs, ?_, h2, by simpa using h3, hc⟩
       unfold FS.write
       simp only [hopen, Bool.false_eq_true, if_false, beq_iff_eq, h0, hbig, if_true, h1]
     · have hle : p.length ≤ crossnode.MaxFrameSize := Nat.le_of_not_lt hbig
-      refine ⟨[⟨st.tunnelID, crossnode.FrameTypeData, p⟩], ?_, ?_, ?_⟩
+      refine ⟨[⟨st.tunnelID, crossnode.FrameTypeData, p⟩], ?_, ?_, ?_, by simp⟩
       · unfold FS.write
         simp only [hopen, Bool.false_eq_true, if_false, beq_iff_eq, h0, hbig,
           writeFrame_ok ⟨st.tunnelID, crossnode.FrameTypeData, p⟩ hle, encodeAll, List.map_cons, List.map_nil,
@@ -132,29 +143,30 @@ travel.  Only `out` changes. -/
 theorem runWriter_closed (me : Bytes) (st : FS) (evs : List Ev) (hc : st.writeEOF = true)
     (hwf : ∀ e ∈ evs, evWF me e = true) :
     ∃ fs, (runWriter st evs).2 = { st with out := st.out ++ encodeAll fs } ∧ (∀ f ∈ fs, f.WF) ∧
-      (runWriter st evs).1 = expectedWrites false evs := by
+      (runWriter st evs).1 = expectedWrites false evs ∧ fs.length ≤ frameBound evs := by
   induction evs generalizing st with
-  | nil => exact ⟨[], by cases st; simp [runWriter, encodeAll], by simp, rfl⟩
+  | nil => exact ⟨[], by cases st; simp [runWriter, encodeAll], by simp, rfl, by simp⟩
   | cons e evs ih =>
     have hrest : ∀ e ∈ evs, evWF me e = true := fun x hx => hwf x (List.mem_cons_of_mem _ hx)
     cases e with
     | write p =>
-      obtain ⟨fs, h1, h2, h3⟩ := ih st hc hrest
+      obtain ⟨fs, h1, h2, h3, h4⟩ := ih st hc hrest
       exact ⟨fs, by simp [runWriter, write_closed st p hc, h1], h2,
-        by simp [runWriter, write_closed st p hc, h3, expectedWrites]⟩
+        by simp [runWriter, write_closed st p hc, h3, expectedWrites],
+        by simp only [frameBound]; exact Nat.le_trans h4 (Nat.le_add_left _ _)⟩
     | closeWrite =>
-      obtain ⟨fs, h1, h2, h3⟩ := ih st hc hrest
+      obtain ⟨fs, h1, h2, h3, h4⟩ := ih st hc hrest
       exact ⟨fs, by simp [runWriter, FS.closeWrite, closeWith_closed st _ hc, h1], h2,
-        by simp [runWriter, FS.closeWrite, closeWith_closed st _ hc, h3, expectedWrites]⟩
+        by simp [runWriter, FS.closeWrite, closeWith_closed st _ hc, h3, expectedWrites], by simp only [frameBound]; omega⟩
     | close =>
-      obtain ⟨fs, h1, h2, h3⟩ := ih st hc hrest
+      obtain ⟨fs, h1, h2, h3, h4⟩ := ih st hc hrest
       exact ⟨fs, by simp [runWriter, FS.close, closeWith_closed st _ hc, h1], h2,
-        by simp [runWriter, FS.close, closeWith_closed st _ hc, h3, expectedWrites]⟩
+        by simp [runWriter, FS.close, closeWith_closed st _ hc, h3, expectedWrites], by simp only [frameBound]; omega⟩
     | inject tid ty d =>
       obtain ⟨hty, hd, -⟩ := evWF_inject (hwf _ (List.mem_cons_self ..))
       have hw := writeFrame_ok ⟨tunnelIDFromString tid, ty, d⟩ hd
-      obtain ⟨fs, h1, h2, h3⟩ := ih { st with out := st.out ++ encode ⟨tunnelIDFromString tid, ty, d⟩ } hc hrest
-      refine ⟨⟨tunnelIDFromString tid, ty, d⟩ :: fs, ?_, ?_, ?_⟩
+      obtain ⟨fs, h1, h2, h3, h4⟩ := ih { st with out := st.out ++ encode ⟨tunnelIDFromString tid, ty, d⟩ } hc hrest
+      refine ⟨⟨tunnelIDFromString tid, ty, d⟩ :: fs, ?_, ?_, ?_, by simp only [frameBound, List.length_cons]; omega⟩
       · simp only [runWriter, hw, h1, encodeAll_cons, List.append_assoc]
       · intro f hf
         rcases List.mem_cons.mp hf with hf | hf
@@ -169,17 +181,18 @@ theorem runWriter_open (me : Bytes) (st : FS) (evs : List Ev) (ho : st.writeEOF 
     ∃ fs, (runWriter st evs).2.out = st.out ++ encodeAll fs ∧
       (runWriter st evs).2.broken = st.broken ∧ (∀ f ∈ fs, f.WF) ∧
       (runWriter st evs).1 = expectedWrites true evs ∧
-      deliver (tunnelIDFromString me) fs = expected me evs := by
+      deliver (tunnelIDFromString me) fs = expected me evs ∧ fs.length ≤ frameBound evs := by
   induction evs generalizing st with
-  | nil => exact ⟨[], by simp [runWriter, encodeAll], rfl, by simp, rfl, rfl⟩
+  | nil => exact ⟨[], by simp [runWriter, encodeAll], rfl, by simp, rfl, rfl, by simp⟩
   | cons e evs ih =>
     have hrest : ∀ e ∈ evs, evWF me e = true := fun x hx => hwf x (List.mem_cons_of_mem _ hx)
     have hidl : st.tunnelID.length = idLen := by rw [hid]; exact tunnelIDFromString_length me
     cases e with
     | write p =>
-      obtain ⟨fsP, hw, hown, hcat⟩ := write_open st hidl p ho
-      obtain ⟨fs, h1, h2, h3, h4, h5⟩ := ih { st with out := st.out ++ encodeAll fsP } ho hid hrest
-      refine ⟨fsP ++ fs, ?_, ?_, ?_, ?_, ?_⟩
+      obtain ⟨fsP, hw, hown, hcat, hcnt⟩ := write_open st hidl p ho
+      obtain ⟨fs, h1, h2, h3, h4, h5, h6⟩ := ih { st with out := st.out ++ encodeAll fsP } ho hid hrest
+      refine ⟨fsP ++ fs, ?_, ?_, ?_, ?_, ?_,
+        by simp only [frameBound, List.length_append]; exact Nat.add_le_add hcnt h6⟩
       · simp only [runWriter, hw, h1, encodeAll_append, List.append_assoc]
       · simp only [runWriter, hw, h2]
       · intro f hf
@@ -191,9 +204,9 @@ theorem runWriter_open (me : Bytes) (st : FS) (evs : List Ev) (ho : st.writeEOF 
         simp [expected]
     | closeWrite =>
       have hst := closeWith_open st crossnode.FrameTypeEOF ho
-      obtain ⟨fs, h1, h2, h3⟩ := runWriter_closed me
+      obtain ⟨fs, h1, h2, h3, h4⟩ := runWriter_closed me
         { st with out := st.out ++ encode ⟨st.tunnelID, crossnode.FrameTypeEOF, []⟩, writeEOF := true } evs rfl hrest
-      refine ⟨⟨st.tunnelID, crossnode.FrameTypeEOF, []⟩ :: fs, ?_, ?_, ?_, ?_, ?_⟩
+      refine ⟨⟨st.tunnelID, crossnode.FrameTypeEOF, []⟩ :: fs, ?_, ?_, ?_, ?_, ?_, by simp only [frameBound, List.length_cons]; omega⟩
       · simp only [runWriter, FS.closeWrite, hst, h1, encodeAll_cons, List.append_assoc]
       · simp only [runWriter, FS.closeWrite, hst, h1]
       · intro f hf
@@ -204,9 +217,9 @@ theorem runWriter_open (me : Bytes) (st : FS) (evs : List Ev) (ho : st.writeEOF 
       · simp [deliver, expected, hid, isTerminator, Ne.symm data_ne_eof]
     | close =>
       have hst := closeWith_open st crossnode.FrameTypeClose ho
-      obtain ⟨fs, h1, h2, h3⟩ := runWriter_closed me
+      obtain ⟨fs, h1, h2, h3, h4⟩ := runWriter_closed me
         { st with out := st.out ++ encode ⟨st.tunnelID, crossnode.FrameTypeClose, []⟩, writeEOF := true } evs rfl hrest
-      refine ⟨⟨st.tunnelID, crossnode.FrameTypeClose, []⟩ :: fs, ?_, ?_, ?_, ?_, ?_⟩
+      refine ⟨⟨st.tunnelID, crossnode.FrameTypeClose, []⟩ :: fs, ?_, ?_, ?_, ?_, ?_, by simp only [frameBound, List.length_cons]; omega⟩
       · simp only [runWriter, FS.close, hst, h1, encodeAll_cons, List.append_assoc]
       · simp only [runWriter, FS.close, hst, h1]
       · intro f hf
@@ -218,9 +231,9 @@ theorem runWriter_open (me : Bytes) (st : FS) (evs : List Ev) (ho : st.writeEOF 
     | inject tid ty d =>
       obtain ⟨hty, hd, hforeign⟩ := evWF_inject (hwf _ (List.mem_cons_self ..))
       have hw := writeFrame_ok ⟨tunnelIDFromString tid, ty, d⟩ hd
-      obtain ⟨fs, h1, h2, h3, h4, h5⟩ :=
+      obtain ⟨fs, h1, h2, h3, h4, h5, h6⟩ :=
         ih { st with out := st.out ++ encode ⟨tunnelIDFromString tid, ty, d⟩ } ho hid hrest
-      refine ⟨⟨tunnelIDFromString tid, ty, d⟩ :: fs, ?_, ?_, ?_, ?_, ?_⟩
+      refine ⟨⟨tunnelIDFromString tid, ty, d⟩ :: fs, ?_, ?_, ?_, ?_, ?_, by simp only [frameBound, List.length_cons]; omega⟩
       · simp only [runWriter, hw, h1, encodeAll_cons, List.append_assoc]
       · simp only [runWriter, hw, h2]
       · intro f hf
@@ -242,9 +255,22 @@ theorem runWriter_open (me : Bytes) (st : FS) (evs : List Ev) (ho : st.writeEOF 
 
 /-! ### reader -/
 
-/-- The reader state is in step with the frame sequence still to come on the connection. -/
+/-- What may follow the last complete frame on a connection that ends (or fails) there: nothing, or the
+beginning of a frame cut off inside its header or payload.  The decoder fails on it with the error the
+ending calls for (a close for `eof`, a transport error for `err`) and leaves nothing. -/
+def Junk (junk : Bytes) (tl : Tail) : Prop :=
+  ∃ e, (parseFrame junk tl).1 = .fail e ∧ (parseFrame junk tl).2.1 = [] ∧ closedErr e = (tl == .eof)
+
+theorem junk_nil (tl : Tail) : Junk [] tl := by
+  cases tl
+  · exact ⟨.eof, by simp [parseFrame, crossnode.FrameHeaderSize], by simp [parseFrame, crossnode.FrameHeaderSize], rfl⟩
+  · exact ⟨.header .err, by simp [parseFrame, crossnode.FrameHeaderSize],
+      by simp [parseFrame, crossnode.FrameHeaderSize], rfl⟩
+
+/-- The reader state is in step with the frame sequence still to come on the connection
+(complete frames `fs`, then possibly a cut-off frame). -/
 structure Inv (st : FS) (fs : List Frame) (tl : Tail) : Prop where
-  flat : st.conn.flat = encodeAll fs
+  flat : ∃ junk, st.conn.flat = encodeAll fs ++ junk ∧ Junk junk tl
   tail : st.conn.tail = tl
   wf : ∀ f ∈ fs, f.WF
   reof : st.readEOF = false
@@ -255,60 +281,74 @@ def pend (st : FS) (fs : List Frame) : Bytes :=
 
 /-- What one `Read(p)` must satisfy, given the bytes owed `E`, whether a terminator is coming (`T`),
 and the fields of the state a read never changes (`id`, `weof`) or changes only on error (`br`). -/
-def ReadPost (tl : Tail) (id : Bytes) (weof br : Bool) (E : Bytes) (T : Bool) (nfs p : Nat) (r : RRes) (st' : FS) : Prop :=
+def ReadPost (tl : Tail) (fresh : Prop) (id : Bytes) (weof br : Bool) (E : Bytes) (T : Bool) (nfs p : Nat) (r : RRes) (st' : FS) : Prop :=
   match r with
   | .data d => d.length ≤ p ∧ (p = 0 ∨ d ≠ []) ∧ d <+: E ∧
       st'.tunnelID = id ∧ st'.writeEOF = weof ∧ st'.broken = br ∧
-      ∃ fs', Inv st' fs' tl ∧ fs'.length ≤ nfs ∧ pend st' fs' = E.drop d.length ∧ (deliver id fs').2 = T
+      ∃ fs', Inv st' fs' tl ∧ fs'.length ≤ nfs ∧ pend st' fs' = E.drop d.length ∧ (deliver id fs').2 = T ∧
+        -- a result produced by the frame loop (`fresh`) consumed a frame, and a frame-sized buffer took all of it
+        (fresh → fs'.length < nfs ∧ (crossnode.MaxFrameSize ≤ p → st'.readBuf = [] ∧ st'.readOff = 0))
   | .eof => E = [] ∧ (T = true ∨ tl = .eof) ∧ st'.readEOF = true ∧ st'.broken = br
   | .err _ => E = [] ∧ T = false ∧ tl = .err
   | .fuel => False
 
-theorem ReadPost_mono {tl id weof br E T n m p r st'} (h : ReadPost tl id weof br E T n p r st') (hnm : n ≤ m) :
-    ReadPost tl id weof br E T m p r st' := by
+theorem ReadPost_mono {tl fresh id weof br E T n m p r st'} (h : ReadPost tl fresh id weof br E T n p r st') (hnm : n ≤ m) :
+    ReadPost tl fresh id weof br E T m p r st' := by
   cases r with
   | data d =>
-    obtain ⟨h1, h2, h3, h4, h5, h6, fs', h7, h8, h9, h10⟩ := h
-    exact ⟨h1, h2, h3, h4, h5, h6, fs', h7, Nat.le_trans h8 hnm, h9, h10⟩
+    obtain ⟨h1, h2, h3, h4, h5, h6, fs', h7, h8, h9, h10, h11⟩ := h
+    exact ⟨h1, h2, h3, h4, h5, h6, fs', h7, Nat.le_trans h8 hnm, h9, h10,
+      fun hf => ⟨Nat.lt_of_lt_of_le (h11 hf).1 hnm, (h11 hf).2⟩⟩
   | eof => exact h
   | err e => exact h
   | fuel => exact h
 
-theorem readFrame_nil (s : Src) (h : s.flat = []) :
-    (readFrame s).out = .fail (if s.tail == .eof then .eof else .header s.tail) ∧
-    (readFrame s).rest.flat = [] ∧ (readFrame s).rest.tail = s.tail := by
+theorem ReadPost_weaken {tl id weof br E T n p r st'} (Q : Prop) (h : ReadPost tl True id weof br E T n p r st') :
+    ReadPost tl Q id weof br E T n p r st' := by
+  cases r with
+  | data d =>
+    obtain ⟨h1, h2, h3, h4, h5, h6, fs', h7, h8, h9, h10, h11⟩ := h
+    exact ⟨h1, h2, h3, h4, h5, h6, fs', h7, h8, h9, h10, fun _ => h11 trivial⟩
+  | eof => exact h
+  | err e => exact h
+  | fuel => exact h
+
+theorem readFrame_junk (s : Src) (junk : Bytes) (hj : Junk junk s.tail) (h : s.flat = junk) :
+    ∃ e, (readFrame s).out = .fail e ∧ closedErr e = (s.tail == .eof) := by
+  obtain ⟨h1, -, -, -⟩ := readFrame_flat s
+  obtain ⟨e, e1, -, e3⟩ := hj
+  rw [h, e1] at h1
+  exact ⟨e, h1, e3⟩
+
+theorem readFrame_cons (s : Src) (f : Frame) (fs : List Frame) (junk : Bytes) (hf : f.WF)
+    (h : s.flat = encodeAll (f :: fs) ++ junk) :
+    (readFrame s).out = .frame f ∧ (readFrame s).rest.flat = encodeAll fs ++ junk ∧
+      (readFrame s).rest.tail = s.tail := by
   obtain ⟨h1, h2, -, h4⟩ := readFrame_flat s
-  have hp : parseFrame [] s.tail =
-      (.fail (if s.tail == .eof then .eof else .header s.tail), [], crossnode.FrameHeaderSize) := by
-    simp [parseFrame, crossnode.FrameHeaderSize]
-  rw [h, hp] at h1 h2
+  rw [h, encodeAll_cons, List.append_assoc, parse_encode f hf] at h1 h2
   exact ⟨h1, h2, h4⟩
 
-theorem readFrame_cons (s : Src) (f : Frame) (fs : List Frame) (hf : f.WF) (h : s.flat = encodeAll (f :: fs)) :
-    (readFrame s).out = .frame f ∧ (readFrame s).rest.flat = encodeAll fs ∧ (readFrame s).rest.tail = s.tail := by
-  obtain ⟨h1, h2, -, h4⟩ := readFrame_flat s
-  rw [h, encodeAll_cons, parse_encode f hf] at h1 h2
-  exact ⟨h1, h2, h4⟩
-
-theorem nextFrame_spec (trk : Tracker) (tl : Tail) (fs : List Frame) (st : FS) (k p : Nat)
-    (hflat : st.conn.flat = encodeAll fs) (htail : st.conn.tail = tl) (hwf : ∀ f ∈ fs, f.WF)
+theorem nextFrame_spec (trk : Tracker) (tl : Tail) (junk : Bytes) (hj : Junk junk tl)
+    (fs : List Frame) (st : FS) (k p : Nat)
+    (hflat : st.conn.flat = encodeAll fs ++ junk) (htail : st.conn.tail = tl) (hwf : ∀ f ∈ fs, f.WF)
     (hre : st.readEOF = false) (hk : fs.length < k) :
-    ReadPost tl st.tunnelID st.writeEOF st.broken (deliver st.tunnelID fs).1 (deliver st.tunnelID fs).2
+    ReadPost tl True st.tunnelID st.writeEOF st.broken (deliver st.tunnelID fs).1 (deliver st.tunnelID fs).2
       fs.length p (nextFrame trk k st p).1 (nextFrame trk k st p).2 := by
   induction fs generalizing st k with
   | nil =>
     cases k with
     | zero => omega
     | succ k =>
-      obtain ⟨h1, -, -⟩ := readFrame_nil st.conn (by simpa [encodeAll] using hflat)
-      rw [htail] at h1
+      obtain ⟨e, h1, h1c⟩ := readFrame_junk st.conn junk (htail ▸ hj) (by simpa [encodeAll] using hflat)
+      rw [htail] at h1c
       cases tl with
       | eof =>
-        simp only [nextFrame, h1, beq_self_eq_true, if_true, closedErr, ReadPost, deliver]
+        have hc : closedErr e = true := h1c
+        simp only [nextFrame, h1, hc, if_true, ReadPost, deliver]
         simp
       | err =>
-        have : (Tail.err == Tail.eof) = false := rfl
-        simp only [nextFrame, h1, this, Bool.false_eq_true, if_false, closedErr, ReadPost, deliver]
+        have hc : closedErr e = false := h1c
+        simp only [nextFrame, h1, hc, Bool.false_eq_true, if_false, ReadPost, deliver]
         simp
   | cons f fs ih =>
     cases k with
@@ -317,10 +357,10 @@ theorem nextFrame_spec (trk : Tracker) (tl : Tail) (fs : List Frame) (st : FS) (
       have hf := hwf f (List.mem_cons_self ..)
       have hfs : ∀ g ∈ fs, g.WF := fun g hg => hwf g (List.mem_cons_of_mem _ hg)
       have hk' : fs.length < k := by simp at hk; omega
-      obtain ⟨h1, h2, h3⟩ := readFrame_cons st.conn f fs hf hflat
+      obtain ⟨h1, h2, h3⟩ := readFrame_cons st.conn f fs junk hf hflat
       have hrec := ih { st with conn := (readFrame st.conn).rest } k h2 (by rw [h3, htail]) hfs hre hk'
       simp only at hrec
-      have hskip : ReadPost tl st.tunnelID st.writeEOF st.broken (deliver st.tunnelID fs).1
+      have hskip : ReadPost tl True st.tunnelID st.writeEOF st.broken (deliver st.tunnelID fs).1
           (deliver st.tunnelID fs).2 (f :: fs).length p
           (nextFrame trk k { st with conn := (readFrame st.conn).rest } p).1
           (nextFrame trk k { st with conn := (readFrame st.conn).rest } p).2 :=
@@ -352,13 +392,15 @@ theorem nextFrame_spec (trk : Tracker) (tl : Tail) (fs : List Frame) (st : FS) (
             · exact (List.take_prefix p f.data).trans (List.prefix_append _ _)
             · by_cases hfull : min p f.data.length ≥ f.data.length
               · simp only [hfull, if_true]
-                refine ⟨trivial, trivial, trivial, fs, ⟨h2, by rw [h3, htail], hfs, hre⟩, by simp, ?_, rfl⟩
+                refine ⟨trivial, trivial, trivial, fs, ⟨⟨junk, h2, hj⟩, by rw [h3, htail], hfs, hre⟩, by simp, ?_, rfl,
+                  fun _ => ⟨by simp, fun _ => by simp⟩⟩
                 have hl : (f.data.take p).length = f.data.length := by
                   rw [List.length_take]; omega
                 simp only [pend, List.drop_nil, List.nil_append, hl, List.drop_left']
               · simp only [hfull, if_false]
-                refine ⟨trivial, trivial, trivial, fs, ⟨h2, by rw [h3, htail], hfs, hre⟩, by simp, ?_, rfl⟩
                 have hlt : p < f.data.length := by omega
+                refine ⟨trivial, trivial, trivial, fs, ⟨⟨junk, h2, hj⟩, by rw [h3, htail], hfs, hre⟩, by simp, ?_, rfl,
+                  fun _ => ⟨by simp, fun hp => absurd (Nat.lt_of_lt_of_le hlt hf.2.2) (Nat.not_lt.mpr hp)⟩⟩
                 have hl : (f.data.take p).length = p := by
                   rw [List.length_take]; omega
                 have hm : min p f.data.length = p := by omega
@@ -388,7 +430,7 @@ theorem nextFrame_spec (trk : Tracker) (tl : Tail) (fs : List Frame) (st : FS) (
 
 theorem read_spec (trk : Tracker) (tl : Tail) (fs : List Frame) (st : FS) (fuel p : Nat) (hinv : Inv st fs tl)
     (hk : fs.length < fuel) :
-    ReadPost tl st.tunnelID st.writeEOF st.broken (pend st fs) (deliver st.tunnelID fs).2
+    ReadPost tl (¬ st.readOff < st.readBuf.length) st.tunnelID st.writeEOF st.broken (pend st fs) (deliver st.tunnelID fs).2
       fs.length p (FS.read trk fuel st p).1 (FS.read trk fuel st p).2 := by
   unfold FS.read
   simp only [hinv.reof, Bool.false_eq_true, if_false]
@@ -408,13 +450,15 @@ theorem read_spec (trk : Tracker) (tl : Tail) (fs : List Frame) (st : FS) (fuel 
     · exact (List.take_prefix p _).trans (List.prefix_append _ _)
     · by_cases hfull : st.readOff + ((st.readBuf.drop st.readOff).take p).length ≥ st.readBuf.length
       · simp only [hfull, if_true]
-        refine ⟨trivial, trivial, trivial, fs, ⟨hinv.flat, hinv.tail, hinv.wf, by first | rfl | exact hinv.reof⟩, Nat.le_refl _, ?_, rfl⟩
+        refine ⟨trivial, trivial, trivial, fs, ⟨hinv.flat, hinv.tail, hinv.wf, by first | rfl | exact hinv.reof⟩, Nat.le_refl _, ?_, rfl,
+          fun hf => absurd trivial hf⟩
         have hl : ((st.readBuf.drop st.readOff).take p).length = (st.readBuf.drop st.readOff).length := by
           rw [hlen, hdl]; rw [hlen] at hfull; omega
         simp only [pend, List.drop_nil, List.nil_append]
         rw [hl, List.drop_left' rfl]
       · simp only [hfull, if_false]
-        refine ⟨trivial, trivial, trivial, fs, ⟨hinv.flat, hinv.tail, hinv.wf, by first | rfl | exact hinv.reof⟩, Nat.le_refl _, ?_, rfl⟩
+        refine ⟨trivial, trivial, trivial, fs, ⟨hinv.flat, hinv.tail, hinv.wf, by first | rfl | exact hinv.reof⟩, Nat.le_refl _, ?_, rfl,
+          fun hf => absurd trivial hf⟩
         have hl : ((st.readBuf.drop st.readOff).take p).length = p := by
           rw [hlen]; rw [hlen] at hfull; omega
         have hple : p ≤ (st.readBuf.drop st.readOff).length := by
@@ -423,7 +467,8 @@ theorem read_spec (trk : Tracker) (tl : Tail) (fs : List Frame) (st : FS) (fuel 
         rw [List.drop_append_of_le_length hple, List.drop_drop]
   · simp only [hbuf, if_false]
     have he : st.readBuf.drop st.readOff = [] := List.drop_of_length_le (Nat.le_of_not_lt hbuf)
-    have := nextFrame_spec trk tl fs st fuel p hinv.flat hinv.tail hinv.wf hinv.reof hk
+    obtain ⟨junk, hfl, hj⟩ := hinv.flat
+    have := nextFrame_spec trk tl junk hj fs st fuel p hfl hinv.tail hinv.wf hinv.reof hk
     simpa [pend, he] using this
 
 theorem readLoop_eof (trk : Tracker) (fuel : Nat) (st : FS) (ps : List Nat) (h : st.readEOF = true) :
@@ -448,7 +493,7 @@ theorem readLoop_checks (trk : Tracker) (tl : Tail) (fuel : Nat) (ps : List Nat)
     cases hr : (FS.read trk fuel st p).1 with
     | data d =>
       rw [hr] at hpost
-      obtain ⟨h1, h2, h3, h4, h5, h6, fs', h7, h8, h9, h10⟩ := hpost
+      obtain ⟨h1, h2, h3, h4, h5, h6, fs', h7, h8, h9, h10, -⟩ := hpost
       have heo' : eofOk = ((deliver (FS.read trk fuel st p).2.tunnelID fs').2 || tl == .eof) := by
         rw [h4, h10]; exact heo
       obtain ⟨i1, i2⟩ := ih (FS.read trk fuel st p).2 fs' h7 (Nat.lt_of_le_of_lt h8 hk) heo'
@@ -487,6 +532,121 @@ theorem readLoop_checks (trk : Tracker) (tl : Tail) (fuel : Nat) (ps : List Nat)
     | fuel =>
       rw [hr] at hpost
       exact absurd hpost id
+
+/-- **Progress with frame-sized buffers**: if every read buffer holds a whole frame, the buffer is empty
+and an end-of-stream is due, then more reads than there are frames reach the end-of-stream. -/
+theorem readLoop_big (trk : Tracker) (tl : Tail) (fuel : Nat) (ps : List Nat) (st : FS) (fs : List Frame)
+    (hinv : Inv st fs tl) (hk : fs.length < fuel)
+    (heo : ((deliver st.tunnelID fs).2 || tl == .eof) = true)
+    (hbuf : st.readBuf = [] ∧ st.readOff = 0)
+    (hps : ∀ p ∈ ps, crossnode.MaxFrameSize ≤ p) (hlen : fs.length < ps.length) :
+    RRes.eof ∈ (readLoop trk fuel st ps).1 := by
+  induction ps generalizing st fs with
+  | nil => simp at hlen
+  | cons p ps ih =>
+    have hpost := read_spec trk tl fs st fuel p hinv hk
+    have hfresh : ¬ st.readOff < st.readBuf.length := by simp [hbuf.1, hbuf.2]
+    have hp : crossnode.MaxFrameSize ≤ p := hps p (List.mem_cons_self ..)
+    unfold readLoop
+    cases hr : (FS.read trk fuel st p).1 with
+    | data d =>
+      rw [hr] at hpost
+      obtain ⟨-, -, -, h4, -, -, fs', h7, -, -, h10, h11⟩ := hpost
+      obtain ⟨hlt, hb⟩ := h11 hfresh
+      simp only [hr, List.mem_cons]
+      right
+      exact ih (FS.read trk fuel st p).2 fs' h7 (Nat.lt_trans hlt hk) (by rw [h4, h10]; exact heo) (hb hp)
+        (fun q hq => hps q (List.mem_cons_of_mem _ hq)) (by simp at hlen; omega)
+    | eof => simp [hr]
+    | err e =>
+      rw [hr] at hpost
+      obtain ⟨-, h2, h3⟩ := hpost
+      rw [h2, h3] at heo
+      simp at heo
+    | fuel =>
+      rw [hr] at hpost
+      exact absurd hpost id
+
+/-! ### fields the two halves of a stream leave alone -/
+
+/-- Writing never touches the read half. -/
+def SameRead (st st' : FS) : Prop :=
+  st'.tunnelID = st.tunnelID ∧ st'.conn = st.conn ∧ st'.readEOF = st.readEOF ∧
+  st'.readBuf = st.readBuf ∧ st'.readOff = st.readOff
+
+theorem write_fields (st : FS) (p : Bytes) : SameRead st (st.write p).2 := by
+  unfold FS.write SameRead
+  by_cases h1 : st.writeEOF = true
+  · simp [h1]
+  · by_cases h2 : (p.length == 0) = true
+    · simp [h1, h2]
+    · by_cases h3 : p.length > crossnode.MaxFrameSize
+      · cases h4 : (writeLoop st.tunnelID p p.length 0 st.out).2.1 <;> simp [h1, h2, h3, h4]
+      · cases h4 : writeFrame ⟨st.tunnelID, crossnode.FrameTypeData, p⟩ <;> simp [h1, h2, h3, h4]
+
+theorem closeWith_fields (st : FS) (ty : Nat) : SameRead st (st.closeWith ty) := by
+  unfold FS.closeWith SameRead
+  repeat' split
+  all_goals simp
+
+theorem SameRead.trans {a b c : FS} (h1 : SameRead a b) (h2 : SameRead b c) : SameRead a c := by
+  obtain ⟨a1, a2, a3, a4, a5⟩ := h1
+  obtain ⟨b1, b2, b3, b4, b5⟩ := h2
+  exact ⟨b1.trans a1, b2.trans a2, b3.trans a3, b4.trans a4, b5.trans a5⟩
+
+theorem runWriter_fields (st : FS) (evs : List Ev) : SameRead st (runWriter st evs).2 := by
+  induction evs generalizing st with
+  | nil => exact ⟨rfl, rfl, rfl, rfl, rfl⟩
+  | cons e evs ih =>
+    cases e with
+    | write p => exact (write_fields st p).trans (ih _)
+    | closeWrite => exact (closeWith_fields st _).trans (ih _)
+    | close => exact (closeWith_fields st _).trans (ih _)
+    | inject tid ty d =>
+      simp only [runWriter]
+      split
+      · exact ih st
+      · exact SameRead.trans ⟨rfl, rfl, rfl, rfl, rfl⟩ (ih _)
+
+/-- Reading never touches the write half. -/
+def SameWrite (st st' : FS) : Prop :=
+  st'.tunnelID = st.tunnelID ∧ st'.writeEOF = st.writeEOF ∧ st'.out = st.out
+
+theorem nextFrame_fields (trk : Tracker) (k : Nat) (st : FS) (p : Nat) : SameWrite st (nextFrame trk k st p).2 := by
+  induction k generalizing st with
+  | zero => exact ⟨rfl, rfl, rfl⟩
+  | succ k ih =>
+    unfold nextFrame
+    simp only
+    split
+    · split <;> exact ⟨rfl, rfl, rfl⟩
+    · have h := ih { st with conn := (readFrame st.conn).rest }
+      repeat' split
+      all_goals first | exact h | exact ⟨rfl, rfl, rfl⟩
+
+theorem read_fields (trk : Tracker) (fuel : Nat) (st : FS) (p : Nat) : SameWrite st (FS.read trk fuel st p).2 := by
+  unfold FS.read SameWrite
+  by_cases h1 : st.readEOF = true
+  · simp [h1]
+  · by_cases h2 : st.readOff < st.readBuf.length
+    · simp only [h1, h2, Bool.false_eq_true, if_false, if_true]
+      split <;> simp
+    · simp only [h1, h2, Bool.false_eq_true, if_false]
+      exact nextFrame_fields trk fuel st p
+
+theorem readLoop_fields (trk : Tracker) (fuel : Nat) (st : FS) (ps : List Nat) :
+    SameWrite st (readLoop trk fuel st ps).2 := by
+  induction ps generalizing st with
+  | nil => exact ⟨rfl, rfl, rfl⟩
+  | cons p ps ih =>
+    have h := read_fields trk fuel st p
+    have hi := ih (FS.read trk fuel st p).2
+    unfold readLoop
+    simp only
+    split
+    · exact h
+    · exact h
+    · exact ⟨hi.1.trans h.1, hi.2.1.trans h.2.1, hi.2.2.trans h.2.2⟩
 
 /-! ### what the call-by-call check implies about the delivered bytes -/
 
@@ -542,6 +702,102 @@ theorem checkReads_prefix (eofOk errOk : Bool) (exp : Bytes) (ps : List Nat) (rs
         have hr : rs = [] := by simpa using h3
         subst he hr
         simp [delivered]
+      | fuel => simp [checkReads] at h
+
+/-! ### a connection cut at an arbitrary offset -/
+
+theorem junk_prefix (f : Frame) (hwf : f.WF) (j : Nat) (hj : j < (encode f).length) (tl : Tail) :
+    Junk ((encode f).take j) tl := by
+  obtain ⟨hid, hty, hlen⟩ := hwf
+  have hhl := header_length f.id f.ty f.data.length hid
+  by_cases hs : j < crossnode.FrameHeaderSize
+  · -- cut inside the header
+    have hl : ((encode f).take j).length = j := by rw [List.length_take]; omega
+    have hlt : ((encode f).take j).length < crossnode.FrameHeaderSize := by rw [hl]; exact hs
+    generalize (encode f).take j = part at hlt
+    clear hl
+    cases tl with
+    | eof =>
+      by_cases he : part.isEmpty
+      · exact ⟨.eof, by simp [parseFrame, hlt, he], by simp [parseFrame, hlt], rfl⟩
+      · exact ⟨.header .eof, by simp [parseFrame, hlt, he], by simp [parseFrame, hlt], rfl⟩
+    | err =>
+      exact ⟨.header .err, by simp [parseFrame, hlt], by simp [parseFrame, hlt], rfl⟩
+  · -- cut inside the payload
+    have hge : crossnode.FrameHeaderSize ≤ j := Nat.le_of_not_lt hs
+    have hel : (encode f).length = crossnode.FrameHeaderSize + f.data.length := encode_length f hid
+    have e : (encode f).take j = header f.id f.ty f.data.length ++ f.data.take (j - crossnode.FrameHeaderSize) := by
+      unfold encode
+      rw [List.take_append, hhl, List.take_of_length_le (by rw [hhl]; exact hge)]
+    have hnl : ¬ ((encode f).take j).length < crossnode.FrameHeaderSize := by
+      rw [List.length_take]; omega
+    have htake : ((encode f).take j).take crossnode.FrameHeaderSize = header f.id f.ty f.data.length := by
+      rw [e, ← hhl, List.take_left']; rfl
+    have hdrop : ((encode f).take j).drop crossnode.FrameHeaderSize = f.data.take (j - crossnode.FrameHeaderSize) := by
+      rw [e, ← hhl, List.drop_left']; rfl
+    have hun : unbe32 ((header f.id f.ty f.data.length).drop (idLen + 1)) = f.data.length := by
+      rw [header_drop _ _ _ hid, unbe32_be32 _ (Nat.lt_of_le_of_lt hlen max_lt)]
+    have h1 : ¬ f.data.length > crossnode.MaxFrameSize := Nat.not_lt.mpr hlen
+    have h2 : (f.data.take (j - crossnode.FrameHeaderSize)).length < f.data.length := by
+      rw [List.length_take]; omega
+    refine ⟨.data tl, ?_, ?_, by cases tl <;> rfl⟩
+    · unfold parseFrame
+      simp only [hnl, if_false, htake, hdrop, hun, h1, h2, if_true]
+    · unfold parseFrame
+      simp only [hnl, if_false, htake, hdrop, hun, h1, h2, if_true]
+
+/-- A prefix of a sequence of encoded frames is a sequence of complete frames followed by a cut-off one. -/
+theorem take_encodeAll (fs : List Frame) (hwf : ∀ f ∈ fs, f.WF) (k : Nat) (tl : Tail) :
+    ∃ fs' junk, (encodeAll fs).take k = encodeAll fs' ++ junk ∧ Junk junk tl ∧ fs' <+: fs := by
+  induction fs generalizing k with
+  | nil => exact ⟨[], [], by simp [encodeAll], junk_nil tl, List.prefix_refl _⟩
+  | cons f fs ih =>
+    have hf := hwf f (List.mem_cons_self ..)
+    have hfs : ∀ g ∈ fs, g.WF := fun g hg => hwf g (List.mem_cons_of_mem _ hg)
+    by_cases hk : (encode f).length ≤ k
+    · obtain ⟨fs', junk, h1, h2, h3⟩ := ih hfs (k - (encode f).length)
+      refine ⟨f :: fs', junk, ?_, h2, ?_⟩
+      · rw [encodeAll_cons, List.take_append, List.take_of_length_le hk, h1, encodeAll_cons, List.append_assoc]
+      · exact (List.prefix_cons_inj f).mpr h3
+    · have hlt : k < (encode f).length := Nat.lt_of_not_le hk
+      refine ⟨[], (encode f).take k, ?_, junk_prefix f hf k hlt tl, List.nil_prefix⟩
+      rw [encodeAll_cons, List.take_append_of_le_length (Nat.le_of_lt hlt)]
+      simp [encodeAll]
+
+theorem deliver_prefix (id : Bytes) (a b : List Frame) :
+    (deliver id a).1 <+: (deliver id (a ++ b)).1 := by
+  induction a with
+  | nil => simp [deliver]
+  | cons f a ih =>
+    simp only [List.cons_append, deliver]
+    split
+    · split
+      · exact (List.prefix_append_right_inj f.data).mpr ih
+      · split
+        · exact List.prefix_refl _
+        · exact ih
+    · exact ih
+
+theorem checkReads_shape (eofOk errOk : Bool) (exp : Bytes) (ps : List Nat) (rs : List RRes)
+    (h : checkReads eofOk errOk exp ps rs = true) : wellShaped ps rs = true := by
+  induction rs generalizing exp ps with
+  | nil => cases ps <;> rfl
+  | cons r rs ih =>
+    cases ps with
+    | nil => simp [checkReads] at h
+    | cons p ps =>
+      cases r with
+      | data d =>
+        simp only [checkReads, Bool.and_eq_true] at h
+        obtain ⟨⟨⟨h1, h2⟩, -⟩, h4⟩ := h
+        simp only [wellShaped, Bool.and_eq_true]
+        exact ⟨⟨h1, h2⟩, ih _ _ h4⟩
+      | eof =>
+        simp only [checkReads, Bool.and_eq_true] at h
+        simpa [wellShaped] using h.2
+      | err e =>
+        simp only [checkReads, Bool.and_eq_true] at h
+        simpa [wellShaped] using h.2
       | fuel => simp [checkReads] at h
 
 end Tunnox.C10
